@@ -359,6 +359,7 @@ func (s *Sim) unpark(t *Task) {
 		}
 	}
 	t.parked = false
+	t.held = false
 	s.mu.Unlock()
 }
 
@@ -471,7 +472,11 @@ func (s *Sim) decide(parked []*Task) *Task {
 	switch s.knobs.Policy {
 	case "sticky":
 		if s.last != nil && s.last.parked && s.rng.Float64() >= s.knobs.PreemptP {
-			return s.last
+			for _, t := range parked { // only if it is eligible (not held)
+				if t == s.last {
+					return s.last
+				}
+			}
 		}
 		return parked[s.rng.Intn(len(parked))]
 	case "pct":
